@@ -345,34 +345,33 @@ Qed.
 Lemma qflags_lookups_on f n : f Vars = true -> qflags f (concat (repeat lookup n)) = Some f.
 Proof. intros H. induction n; unfold lookup in *; simpl; auto. rewrite !H. auto. Qed.
 
-Lemma qflags_lookups f n : exists f', qflags f (concat (repeat lookup n)) = Some f'.
+Lemma qflags_lookups f n :
+  exists f', qflags f (concat (repeat lookup n)) = Some f' /\ f' Quad = f Quad.
 Proof.
   destruct n; simpl; [eauto|]. destruct (f Vars) eqn:E.
   - rewrite E, qflags_lookups_on by auto. eauto.
   - rewrite upd_same, qflags_lookups_on by apply upd_same. eauto.
 Qed.
 
-Ltac qcases :=
-  repeat (unfold upd; simpl;
-          match goal with
-          | |- context[if ?f ?c then _ else _] => destruct (f c) eqn:?
-          end);
-  unfold upd; simpl; eexists; reflexivity.
+Ltac qcases f :=
+  destruct (f Vars) eqn:EV, (f Con) eqn:EC, (f Obj) eqn:EO, (f Quad) eqn:EQ;
+  repeat (unfold upd; simpl; rewrite ?EV, ?EC, ?EO, ?EQ);
+  eexists; (split; [reflexivity | simpl; intros; try discriminate; unfold upd; simpl; rewrite ?EQ; auto]).
 
-(* every query passes the flag discipline, whatever is built already *)
-Lemma qflags_op k q f : exists f', qflags f (qtrace k q) = Some f'.
+(* every query passes the flag discipline, whatever is built already (and an arc query never sets Quad) *)
+Lemma qflags_op k q f :
+  exists f', qflags f (qtrace k q) = Some f' /\ (kind_okb k f = true -> kind_okb k f' = true).
 Proof.
   destruct k, q; try destruct feas;
-    unfold qtrace, lookup, arc_con, arc_obj, seq_con, seq_obj; try (simpl; eauto; fail).
-  - qcases. - qcases. - qcases. - qcases. - qcases. - qcases. - qcases.
-  - apply qflags_lookups.
-  - qcases. - qcases. - qcases. - qcases. - qcases. - qcases. - qcases.
+    unfold qtrace, lookup, arc_con, arc_obj, seq_con, seq_obj, kind_okb;
+    try (simpl; eauto; fail); try (qcases f; fail).
+  - destruct (qflags_lookups f n) as (f' & E & Q). exists f'. rewrite Q. auto.
   - (* sequence get_routes *)
     destruct n as [|n]; [simpl; eauto|].
     cbn [qflags]. set (g := if f Vars then f else upd (upd f Vars true) Vars true).
     assert (G : g Vars = true) by (unfold g; destruct (f Vars) eqn:E; auto; apply upd_same).
-    rewrite qflags_app, (qflags_lookups_on g (S n) G). simpl. rewrite G. eauto.
-  - qcases.
+    rewrite qflags_app. change [Build Vars; Read Vars] with lookup.
+    rewrite (qflags_lookups_on g (S n) G). simpl. rewrite G. eauto.
 Qed.
 
 Lemma clean_cleanb ws : clean ws -> cleanb ws = true.
@@ -383,7 +382,7 @@ Lemma hist_ok_queries k qs : forall ws,
 Proof.
   induction qs as [|q qs IH]; intros ws C; simpl.
   - eauto.
-  - destruct (qflags_op k q (wflag ws)) as (f' & E).
+  - destruct (qflags_op k q (wflag ws)) as (f' & E & _).
     rewrite (wf_run_query _ ws f' C E).
     assert (C' : clean (mkW f' (wdirty ws))) by (intros i; apply C).
     rewrite (clean_cleanb _ C'). apply IH; auto.
@@ -405,7 +404,7 @@ Proof.
     destruct (cleanb w1) eqn:Cb; [|discriminate]. apply cleanb_clean in Cb.
     destruct (wf_run_sound tr ws st w1 G E) as [D1 G1].
     destruct (IH w1 (run st tr) ws' G1 Cb H) as (D2 & F2 & G2 & C2).
-    rewrite disciplined_app, D1, D2, run_app. repeat split; auto; try apply G2.
+    rewrite disciplined_app, D1, D2, run_app. split; [reflexivity|]. split; [|split; assumption].
     constructor; auto. apply (Inv_of_GInv w1); auto.
 Qed.
 
@@ -415,7 +414,7 @@ Theorem history_fresh st h ws' :
 Proof.
   intros I H.
   destruct (hist_ok_sound h _ st ws' (GInv_of_Inv st I) (fun i => eq_refl) H) as (D & F & G & C).
-  repeat split; auto. apply (Inv_of_GInv ws'); auto.
+  split; [exact D|]. split; [exact F|]. apply (Inv_of_GInv ws'); auto.
 Qed.
 
 Lemma hist_ok_app h1 : forall ws h2,
@@ -465,3 +464,117 @@ Proof. intros [A B]. unfold content_of, spec_of. rewrite A, B. reflexivity. Qed.
 (* ---------- path-based: no cache ---------- *)
 Lemma path_queries qs : concat (map (qtrace KPath) qs) = [].
 Proof. induction qs; simpl; auto. Qed.
+
+(* ---------- the discipline depends on the flag values only ---------- *)
+Definition weq (w1 w2 : wstate) : Prop :=
+  forall i, wflag w1 i = wflag w2 i /\ wdirty w1 i = wdirty w2 i.
+
+Ltac weq_fin E :=
+  let j := fresh "j" in
+  intros j; simpl; unfold upd;
+  repeat match goal with |- context[cid_eqb ?a ?b] => destruct (cid_eqb a b) end;
+  (split; auto; apply E).
+
+Lemma wstep_ext w1 w2 a :
+  weq w1 w2 ->
+  match wstep w1 a, wstep w2 a with
+  | Some x, Some y => weq x y
+  | None, None => True
+  | _, _ => False
+  end.
+Proof.
+  intros E. destruct a as [|i b|i|i|i]; simpl.
+  - intros i. simpl. destruct (E i) as [-> ->]. auto.
+  - destruct b; auto. weq_fin E.
+  - destruct (E i) as [A B], (E Vars) as [A' B']. rewrite A, B, B'.
+    destruct (negb (wdirty w2 i) && negb (wdirty w2 Vars)); auto.
+    destruct (wflag w2 i); auto. weq_fin E.
+  - destruct (E Vars) as [A' B'].
+    destruct i; auto.
+    all: match goal with H : weq ?u _ |- context[wflag ?u ?c] =>
+           let A := fresh "A" in let B := fresh "B" in
+           destruct (H c) as [A B]; rewrite A, B, B' end.
+    all: match goal with |- context[if ?c then _ else None] => destruct c; auto end.
+    all: match goal with H : weq _ ?v |- context[wflag ?v ?c] => destruct (wflag v c); auto end.
+    all: weq_fin E.
+  - destruct (E i) as [A B]. rewrite A, B. destruct (wflag w2 i && negb (wdirty w2 i)); auto.
+Qed.
+
+Lemma wf_run_ext tr : forall w1 w2,
+  weq w1 w2 ->
+  match wf_run w1 tr, wf_run w2 tr with
+  | Some x, Some y => weq x y
+  | None, None => True
+  | _, _ => False
+  end.
+Proof.
+  induction tr as [|a tr IH]; intros w1 w2 E; simpl; auto.
+  pose proof (wstep_ext w1 w2 a E) as H.
+  destruct (wstep w1 a) as [x|], (wstep w2 a) as [y|]; try contradiction; auto.
+  apply IH. exact H.
+Qed.
+
+Lemma clean_ext w1 w2 : weq w1 w2 -> clean w2 -> clean w1.
+Proof. intros E C i. destruct (E i) as [_ ->]. apply C. Qed.
+
+Lemma kind_okb_ext k f g : (forall i, f i = g i) -> kind_okb k f = kind_okb k g.
+Proof. intros H. destruct k; simpl; auto; rewrite !H; reflexivity. Qed.
+
+Lemma heur_okb_ok k tr : heur_okb k tr = true -> heur_ok k tr.
+Proof.
+  intros H ws C K. unfold heur_okb in H. rewrite forallb_forall in H.
+  set (f := flag_table (wflag ws Vars) (wflag ws Con) (wflag ws Obj) (wflag ws Quad)).
+  assert (Ef : forall i, wflag ws i = f i) by (intros i; destruct i; reflexivity).
+  assert (I : In f (filter (kind_okb k) all_flag_tables)).
+  { apply filter_In. split.
+    - unfold f. destruct (wflag ws Vars), (wflag ws Con), (wflag ws Obj), (wflag ws Quad); simpl; auto 20.
+    - rewrite <- (kind_okb_ext k _ _ Ef). exact K. }
+  specialize (H f I).
+  assert (E : weq ws (mkW f (fun _ => false))).
+  { intros i. split; simpl; [apply Ef | apply C]. }
+  pose proof (wf_run_ext tr _ _ E) as X.
+  destruct (wf_run (mkW f (fun _ => false)) tr) as [w2|]; [|discriminate].
+  destruct (wf_run ws tr) as [w1|]; [|contradiction].
+  apply andb_true_iff in H. destruct H as [H1 H2].
+  exists w1. split; auto. split.
+  - apply (clean_ext w1 w2); auto. apply cleanb_clean; auto.
+  - rewrite (kind_okb_ext k (wflag w1) (wflag w2)); auto. intros i. apply X.
+Qed.
+
+(* ---------- histories of queries and heuristic runs ---------- *)
+Lemma hist_ok_calls k cs : forall ws,
+  clean ws -> kind_okb k (wflag ws) = true -> (forall tr, In (CHeur tr) cs -> heur_ok k tr) ->
+  exists ws', hist_ok ws (map (ctrace k) cs) = Some ws' /\ clean ws'.
+Proof.
+  induction cs as [|c cs IH]; intros ws C K Hh; simpl.
+  - eauto.
+  - destruct c as [q|tr]; simpl.
+    + destruct (qflags_op k q (wflag ws)) as (f' & E & K').
+      rewrite (wf_run_query _ ws f' C E).
+      assert (C' : clean (mkW f' (wdirty ws))) by (intros i; apply C).
+      rewrite (clean_cleanb _ C'). apply IH; auto. intros t Ht. apply Hh. right; auto.
+    + destruct (Hh tr (or_introl eq_refl) ws C K) as (w1 & E & C1 & K1).
+      rewrite E, (clean_cleanb _ C1). apply IH; auto. intros t Ht. apply Hh. right; auto.
+Qed.
+
+Theorem calls_fresh k st cs :
+  Inv st -> kind_okb k (flag st) = true -> (forall tr, In (CHeur tr) cs -> heur_ok k tr) ->
+  let h := map (ctrace k) cs in
+  disciplined (concat h) st = true /\ Forall Inv (hist_states st h) /\ Inv (run st (concat h)).
+Proof.
+  intros I K Hh h.
+  destruct (hist_ok_calls k cs (ws_of st) (fun i => eq_refl) K Hh) as (w & E & _).
+  exact (history_fresh st h w I E).
+Qed.
+
+(* ---------- the contents handed out ---------- *)
+Lemma read_contents_fresh (D C : Type) (dat : nat -> D) (F : cid -> D -> D -> C) tr : forall st,
+  disciplined tr st = true ->
+  Forall (fun p => fst p = Some (snd p)) (read_contents D C dat F tr st).
+Proof.
+  induction tr as [|a tr IH]; intros st H; simpl in *; [constructor|].
+  apply andb_true_iff in H. destruct H as [H1 H2].
+  apply Forall_app. split; [|apply IH; auto].
+  destruct a; try constructor; [|constructor].
+  simpl. apply fresh_content. apply freshb_fresh. auto.
+Qed.
